@@ -8,7 +8,7 @@ for m in sorted(glob.glob('/verif/seeded/%s-*/meta.json' % pid)):
 a, b = first, first + 1
 print(f"""You are helping test a verification setup for the Go library tsawler/tabula (pure-Go document text extraction: PDF, DOCX, ODT, XLSX, PPTX, EPUB, HTML; layout analysis; RAG chunking).
 
-You have your own scratch git worktree of the repository at /tmp/wt-{pid} (work ONLY there; never touch /repo or /verif, and do not read anything under /verif). Go environment for every shell call: `export GOFLAGS=-mod=mod GOPROXY=off GOSUMDB=off GOTOOLCHAIN=local` (there is no network).
+You have your own scratch git worktree of the repository at /tmp/wt-{pid} (work ONLY there; never touch /repo or /verif, and do not read anything under /verif). Go environment for every shell call: `export GOFLAGS=-mod=mod GOPROXY=off GOSUMDB=off GOTOOLCHAIN=local` (there is no network). Never use `git stash` (other agents share this repository's git directory and the stash is common to all worktrees) and never run conda.
 
 Here is a semantic property the library is supposed to satisfy:
 
